@@ -7,8 +7,64 @@ def run(chk):
         "Decides table-agreement clauses between what each of the ~200 functions declares and what its code does, not semantic correctness of results. "
         "R03a: every keyword compile() asks the ArgumentList for is declared in PARAMETERS (and required getters are only used on required/defaulted "
         "parameters). R03d: in resolve-reachable stdlib code no coercion result (VrlValueConvert::try_*, Value::as_*) is consumed by unwrap/expect — "
-        "progressive type checking lets `f!(.x)` deliver a wrong-typed value to resolve, which must yield an error. R03f: the call builder's progressive type check compares parameter.kind() with the argument's own unmodified kind and records every partial match. Undecided: element kinds of returned collections, semantic correctness.")
+        "progressive type checking lets `f!(.x)` deliver a wrong-typed value to resolve, which must yield an error. R03f: the call builder's progressive type check compares parameter.kind() with the argument's own unmodified kind and records every partial match. "
+        "R03c (documented return kinds): the Value variants a function's resolve can return — read from the MIR by classifying the producers of the returned "
+        "value (P-RET: Value::X constructions, From/Into<Value> conversions by source type, results of local helpers; an operand handed back unchanged is "
+        "'unknown' and never reported) — are inside the kinds `Function::return_kind()` declares. Undecided: element kinds of returned collections, the "
+        "argument-dependent refinement in type_def, semantic correctness.")
     M = sr.function_model(chk.facts)
     sr.rule_keyword_agreement(chk, "R03a", M)
     sr.rule_coercion_unwrapped(chk, "R03d", M)
     sr.rule_progressive_type_check(chk, "R03f")
+    rule_return_kinds(chk, "R03c", M)
+
+
+VARIANT_BIT = {"Bytes": 1 << 1, "Integer": 1 << 2, "Float": 1 << 3, "Boolean": 1 << 4, "Object": 1 << 5, "Array": 1 << 6, "Timestamp": 1 << 7,
+               "Regex": 1 << 8, "Null": 1 << 9}
+# one line of reason per exception (function identifier -> variant tolerated although return_kind() does not list it)
+RET_EXEMPT = {}
+
+
+def rule_return_kinds(chk, rid, M):
+    import fmap
+    import retkind
+    facts = chk.facts
+    chk.rule(rid, "Value variants produced by resolve are inside Function::return_kind()", floor=150)
+    R = retkind.RetKinds(facts)
+    n_known = 0
+    for f in M.functions.values():
+        ident = f["identifier"]
+        rkn = "<%s as compiler::function::Function>::return_kind" % f["self"]
+        bits = None
+        if facts.has(rkn):
+            rb = facts.body(rkn)
+            for bi, si, st in rb.iter_stmts():
+                if st["d"]["l"] == 0 and not st["d"].get("p"):
+                    rv = st["rv"]
+                    if rv["k"] == "use":
+                        bits = fmap.const_int(rb, rv["op"])
+                    elif rv["k"] == "binop":
+                        x, y = fmap.const_int(rb, rv["a"]), fmap.const_int(rb, rv["b"])
+                        if x is not None and y is not None and rv["op"] == "BitOr":
+                            bits = x | y
+        roots = [r for r in (M.resolve_body(e) for e in f["exprs"]) if r]
+        got = set()
+        for r in roots:
+            got |= R.of(r)
+        known = sorted(got - {"?"})
+        d = {"function": ident, "return_kind_bits": bits, "produced_variants": known, "has_unclassified_producer": "?" in got}
+        if bits is None or not roots:
+            chk.instance(rid, d, ok=None)
+            chk.note(rid, "%s: return_kind()/resolve not readable (unarmed)" % ident)
+            continue
+        if known and "?" not in got:
+            n_known += 1
+        outside = [v for v in known if v in VARIANT_BIT and not (bits & VARIANT_BIT[v]) and (ident, v) not in RET_EXEMPT]
+        chk.instance(rid, d, ok=not outside)
+        for v in outside:
+            chk.violation(rid, f["file"], f["self"], "`%s` returns %s outside return_kind()" % (ident, v),
+                          "`%s` can return a %s value, but Function::return_kind() (the documented return kinds, bits %#x) does not list it" % (ident, v.lower(), bits),
+                          detail=d)
+    chk.extra["R03c_fully_classified_functions"] = n_known
+    if n_known < 120:
+        chk.fail_closed(rid, "only %d functions have a fully classified return value (expected >= 120): the producer classification no longer matches the code" % n_known)
